@@ -40,10 +40,10 @@ neutral('C01', 'n-lut-hex', 'sim.py', 'AND2 = np.uint16(0b1000_1000_1000_1000)',
 neutral('C01', 'n-comment-blank', 'sim.py', '        # translate circuit structure into self.ops\n', '\n        # translate the circuit structure\n        # into self.ops\n\n')
 
 # ------------------------------------------------------------------ C02
-mut('C02', '4v-and-drop-zero-mask', 'logic.py', 'def bp4v_and(out, *ins):\n    out[...] = 0xff\n    any_unknown = ins[0][..., 0, :] ^ ins[0][..., 1, :]\n    for inp in ins[1:]: any_unknown |= inp[..., 0, :] ^ inp[..., 1, :]\n    any_zero = ~ins[0][..., 0, :] & ~ins[0][..., 1, :]\n    for inp in ins[1:]: any_zero |= ~inp[..., 0, :] & ~inp[..., 1, :]\n    for inp in ins:\n        out[..., 0, :] &= inp[..., 0, :] | (any_unknown & ~any_zero)',
-    'def bp4v_and(out, *ins):\n    out[...] = 0xff\n    any_unknown = ins[0][..., 0, :] ^ ins[0][..., 1, :]\n    for inp in ins[1:]: any_unknown |= inp[..., 0, :] ^ inp[..., 1, :]\n    any_zero = ~ins[0][..., 0, :] & ~ins[0][..., 1, :]\n    for inp in ins[1:]: any_zero |= ~inp[..., 0, :] & ~inp[..., 1, :]\n    for inp in ins:\n        out[..., 0, :] &= inp[..., 0, :] | any_unknown', 'C02.op')
-mut('C02', '8v-or-first-only', 'logic.py', '    any_one = ins[0][..., 0, :] & ins[0][..., 1, :] & ~ins[0][..., 2, :]\n    for inp in ins[1:]: any_one |= inp[..., 0, :] & inp[..., 1, :] & ~inp[..., 2, :]',
-    '    any_one = ins[0][..., 0, :] & ins[0][..., 1, :] & ~ins[0][..., 2, :]\n    for inp in ins[2:]: any_one |= inp[..., 0, :] & inp[..., 1, :] & ~inp[..., 2, :]', 'C02.op')
+mut('C02', '4v-and-drop-zero-mask', 'logic.py', "        out[..., 0, :] &= inp[..., 0, :] | (any_unknown & ~any_zero)\n        out[..., 1, :] &= inp[..., 1, :] & ~any_unknown\n    return out\n\n\ndef bp8v_and",
+    "        out[..., 0, :] &= inp[..., 0, :] | any_unknown\n        out[..., 1, :] &= inp[..., 1, :] & ~any_unknown\n    return out\n\n\ndef bp8v_and", 'C02.op')
+mut('C02', '8v-or-first-only', 'logic.py', '    for inp in ins[1:]: any_one = any_one | (inp[..., 0, :] & inp[..., 1, :] & ~inp[..., 2, :])',
+    '    for inp in ins[2:]: any_one = any_one | (inp[..., 0, :] & inp[..., 1, :] & ~inp[..., 2, :])', 'C02.op')
 mut('C02', '8v-mux-wrong-temp', 'logic_sim.py', '                    logic.bp8v_and(self.c[t1], self.c[i1], self.c[i2])\n                    logic.bp8v_or(self.c[o0], self.c[t0], self.c[t1])', '                    logic.bp8v_and(self.c[t0], self.c[i1], self.c[i2])\n                    logic.bp8v_or(self.c[o0], self.c[t0], self.c[t1])', 'C02.comp')
 mut('C02', '4v-aoi22-no-invert', 'logic_sim.py', '                    logic.bp4v_or(self.c[o0], self.c[t0], self.c[t1])\n                    logic.bp4v_not(self.c[o0], self.c[o0])\n                elif op == sim.OA22:', '                    logic.bp4v_or(self.c[o0], self.c[t0], self.c[t1])\n                elif op == sim.OA22:', 'C02.comp')
 mut('C02', '8v-alias-and', 'logic_sim.py', 'elif op == sim.NAND2: logic.bp8v_and(self.c[o0], self.c[i0], self.c[i1]); logic.bp8v_not(self.c[o0], self.c[o0])',
@@ -76,9 +76,7 @@ mut('C02', '8v-and-activity-unmasked', 'logic.py', '        out[..., 2, :] |= in
 mut('C02', 'mux-via-xor', 'logic_sim.py', '                    logic.bp8v_not(self.c[t1], self.c[i2])\n                    logic.bp8v_and(self.c[t0], self.c[i0], self.c[t1])\n                    logic.bp8v_and(self.c[t1], self.c[i1], self.c[i2])\n                    logic.bp8v_or(self.c[o0], self.c[t0], self.c[t1])',
     '                    logic.bp8v_xor(self.c[t0], self.c[i0], self.c[i1])\n                    logic.bp8v_and(self.c[t1], self.c[t0], self.c[i2])\n                    logic.bp8v_xor(self.c[o0], self.c[i0], self.c[t1])', 'C02.comp')
 mut('C05', 'lut-shifted', 'wave_sim.py', 'if (z_cur & 1) != ((lut >> inputs) & 1):', 'if (z_cur & 1) != ((lut >> (inputs ^ 1)) & 1):', 'C05.sameops')
-mut('C05', 'or-controlling-any', 'logic.py', 'def bp8v_or(out, *ins):\n    out[...] = 0\n    any_unknown = (ins[0][..., 0, :] ^ ins[0][..., 1, :]) & ~ins[0][..., 2, :]\n    for inp in ins[1:]: any_unknown |= (inp[..., 0, :] ^ inp[..., 1, :]) & ~inp[..., 2, :]\n    any_one = ins[0][..., 0, :] & ins[0][..., 1, :] & ~ins[0][..., 2, :]',
-    'def bp8v_or(out, *ins):\n    out[...] = 0\n    any_unknown = (ins[0][..., 0, :] ^ ins[0][..., 1, :]) & ~ins[0][..., 2, :]\n    for inp in ins[1:]: any_unknown |= (inp[..., 0, :] ^ inp[..., 1, :]) & ~inp[..., 2, :]\n    any_one = ins[0][..., 0, :] & ins[0][..., 1, :]', ['C05.hazard', 'C05.initfinal'])
-
+mut('C05', 'or-controlling-any', 'logic.py', '    any_one = ins[0][..., 0, :] & ins[0][..., 1, :] & ~ins[0][..., 2, :]\n', '    any_one = ins[0][..., 0, :] & ins[0][..., 1, :]\n', ['C05.hazard', 'C05.initfinal'])
 mut('C05', '8v-xor-activity-lost', 'logic.py', '        out[..., 1, :] ^= inp[..., 1, :]\n        out[..., 2, :] |= inp[..., 2, :]\n', '        out[..., 1, :] ^= inp[..., 1, :]\n', ['C05.hazard', 'C05.initfinal'])
 mut('C05', 'wavesim-own-ops', 'wave_sim.py', 'class WaveSim(sim.SimOps):', 'class WaveSim(object):', 'C05.sameops')
 
@@ -314,3 +312,6 @@ mut('C08', 'heap-merge-prev-not-unlisted', 'sim.py', '                self.chunk
 mut('C08', 'heap-free-not-listed', 'sim.py', '        else:\n            insort_left(self.released, loc)  # put in a new release', '        else:\n            pass', 'C08.heap-released')
 mut('C08', 'heap-merge-next-keeps-entry', 'sim.py', '            self.released[released_idx] = loc\n', '', 'C08.heap-released')
 neutral('C08', 'n-heap-local-name', 'sim.py', 'chunksize', 'csz', count='all')
+
+mut('C12', 'inplace-accumulate-shape', 'logic.py', '    for inp in ins[1:]: any_zero = any_zero | (inp == ZERO)', '    for inp in ins[1:]: any_zero |= (inp == ZERO)', 'C12.broadcast')
+mut('C12', 'bp-inplace-accumulate-shape', 'logic.py', '    for inp in ins[1:]: any_unknown = any_unknown | (inp[..., 0, :] ^ inp[..., 1, :])\n    any_one = ins[0][..., 0, :] & ins[0][..., 1, :]\n', '    for inp in ins[1:]: any_unknown |= inp[..., 0, :] ^ inp[..., 1, :]\n    any_one = ins[0][..., 0, :] & ins[0][..., 1, :]\n', 'C12.broadcast')
